@@ -12,6 +12,8 @@ Bytes are `Nat`s; `IsBytes s` says every element is < 256.
 import Golib.Proof.C07Round
 import Golib.Proof.C07Literal
 import Golib.Proof.C07Utf16
+import Golib.Proof.C07Embedded
+import Golib.Proof.C07Shape
 
 namespace Golib.C07
 
@@ -76,23 +78,194 @@ theorem c07_hex_roundtrip (s : Bytes) (hs : IsBytes s) :
   exact ⟨out, hf, hl, by rw [parseToString_eq hex_bodySpec, hp]⟩
 
 /-- `UnicodeParse(UnicodeFormat(s)) = s` for every valid UTF-8 string (`Utf8.valid` is the
-model of `utf8.Valid`). -/
-theorem c07_unicode_roundtrip (s : Bytes) (hv : Utf8.valid s = true) :
-    ∃ out, unicodeFormat s = some out ∧ parseToString unicodeBody out = .ok s := by
-  obtain ⟨out, hf, hp⟩ := unicode_fun_roundtrip s hv
-  exact ⟨out, hf, by rw [parseToString_eq unicode_bodySpec, hp]⟩
+model of `utf8.Valid`); and for every `s` whatsoever Format does not panic and the round trip
+yields `string([]rune(s))`: each invalid byte has become U+FFFD. -/
+theorem c07_unicode_roundtrip (s : Bytes) :
+    (∃ out, unicodeFormat s = some out ∧
+      parseToString unicodeBody out = .ok (Utf8.encode (Utf8.runes s))) ∧
+    (Utf8.valid s = true →
+      ∃ out, unicodeFormat s = some out ∧ parseToString unicodeBody out = .ok s) := by
+  constructor
+  · obtain ⟨out, hf, hp⟩ := unicode_fun_reencode s
+    exact ⟨out, hf, by rw [parseToString_eq unicode_bodySpec, hp]⟩
+  · intro hv
+    obtain ⟨out, hf, hp⟩ := unicode_fun_roundtrip s hv
+    exact ⟨out, hf, by rw [parseToString_eq unicode_bodySpec, hp]⟩
 
 /-- `Utf16Parse(Utf16Format(s)) = s` for every valid UTF-8 string (surrogate pairs above
-U+FFFF are re-joined). -/
-theorem c07_utf16_roundtrip (s : Bytes) (hv : Utf8.valid s = true) :
-    ∃ out, utf16Format s = some out ∧ parseToString utf16Body out = .ok s := by
-  obtain ⟨out, hf, hp⟩ := utf16_fun_roundtrip s hv
-  exact ⟨out, hf, by rw [parseToString_eq utf16_bodySpec, hp]⟩
+U+FFFF are re-joined); for every `s` whatsoever the round trip yields `string([]rune(s))`. -/
+theorem c07_utf16_roundtrip (s : Bytes) :
+    (∃ out, utf16Format s = some out ∧
+      parseToString utf16Body out = .ok (Utf8.encode (Utf8.runes s))) ∧
+    (Utf8.valid s = true →
+      ∃ out, utf16Format s = some out ∧ parseToString utf16Body out = .ok s) := by
+  constructor
+  · obtain ⟨out, hf, hp⟩ := utf16_fun_reencode s
+    exact ⟨out, hf, by rw [parseToString_eq utf16_bodySpec, hp]⟩
+  · intro hv
+    obtain ⟨out, hf, hp⟩ := utf16_fun_roundtrip s hv
+    exact ⟨out, hf, by rw [parseToString_eq utf16_bodySpec, hp]⟩
 
 /-- Non-vacuity: valid UTF-8 with all four length classes ("aé日😀"). -/
 example : Utf8.valid [97, 195, 169, 230, 151, 165, 240, 159, 152, 128] = true := by decide
 example : utf16Format [240, 159, 152, 128] =
     some [92, 117, 68, 56, 51, 68, 92, 117, 68, 69, 48, 48] := by decide
+/-- Non-vacuity: an invalid string (stray 0xFF, truncated 3-byte sequence) re-encodes with U+FFFD. -/
+example : Utf8.valid [255, 97, 228, 184] = false ∧
+    Utf8.encode (Utf8.runes [255, 97, 228, 184]) = [239, 191, 189, 97, 239, 191, 189, 239, 191, 189] := by
+  decide
+
+/-- Every well-formed escape embedded between backslash-free text `pre`, `post` is replaced by
+the byte / UTF-8 encoding it denotes and the surrounding text is preserved byte for byte.
+Well-formed: `\\ooo` with three octal digits of value ≤ 255; `\\xXX`; `\\UXXXXXXXX` with value
+≤ U+10FFFF (a surrogate value is encoded as U+FFFD, as `utf8.EncodeRune` does); `\\uXXXX`
+outside the surrogate range; a high surrogate `\\uD8xx..DBxx` followed by a low surrogate
+`\\uDCxx..DFxx`.  `isDigit b c`: `c` is a digit character of base `b` (either case),
+`valOf b X` its value. -/
+theorem c07_embedded_escape (pre post : Bytes) (h1 : 92 ∉ pre) (h2 : 92 ∉ post) :
+    (∀ X : Bytes, X.length = 3 → (∀ c ∈ X, isDigit 8 c = true) → valOf 8 X ≤ 255 →
+      parseToString octalBody (pre ++ (92 :: X) ++ post) = .ok (pre ++ [valOf 8 X] ++ post)) ∧
+    (∀ X : Bytes, X.length = 2 → (∀ c ∈ X, isDigit 16 c = true) →
+      parseToString hexBody (pre ++ (92 :: 120 :: X) ++ post) = .ok (pre ++ [valOf 16 X] ++ post)) ∧
+    (∀ X : Bytes, X.length = 8 → (∀ c ∈ X, isDigit 16 c = true) → valOf 16 X ≤ 0x10FFFF →
+      parseToString unicodeBody (pre ++ (92 :: 85 :: X) ++ post) =
+        .ok (pre ++ Utf8.encodeRune (valOf 16 X : Nat) ++ post)) ∧
+    (∀ X : Bytes, X.length = 4 → (∀ c ∈ X, isDigit 16 c = true) →
+      (valOf 16 X < 0xd800 ∨ valOf 16 X ≥ 0xe000) →
+      parseToString utf16Body (pre ++ (92 :: 117 :: X) ++ post) =
+        .ok (pre ++ Utf8.encodeRune (valOf 16 X : Nat) ++ post)) ∧
+    (∀ X Y : Bytes, X.length = 4 → Y.length = 4 → (∀ c ∈ X, isDigit 16 c = true) →
+      (∀ c ∈ Y, isDigit 16 c = true) → (0xd800 ≤ valOf 16 X ∧ valOf 16 X < 0xdc00) →
+      (0xdc00 ≤ valOf 16 Y ∧ valOf 16 Y < 0xe000) →
+      parseToString utf16Body (pre ++ (92 :: 117 :: X ++ (92 :: 117 :: Y)) ++ post) =
+        .ok (pre ++ Utf8.encodeRune (utf16Dec (valOf 16 X) (valOf 16 Y)) ++ post) ∧
+      utf16Dec (valOf 16 X) (valOf 16 Y) =
+        ((valOf 16 X - 0xd800) * 1024 + (valOf 16 Y - 0xdc00) + 0x10000 : Nat)) := by
+  refine ⟨?_, ?_, ?_, ?_, ?_⟩
+  · intro X hl hd hv
+    have hp := parseUint_digits (base := 8) (bits := 8) (by omega) (by omega) (by omega) hd (by omega)
+    rw [hl] at hp
+    rw [parseToString_eq octal_bodySpec]
+    congr 1
+    refine embedded octal_litSpec octal_headLit (fun r => ?_) h1 h2
+    have := octal_step (r := r) hl hp
+    rw [Nat.mod_eq_of_lt (by omega)] at this
+    simpa using this
+  · intro X hl hd
+    have hlt := valOf_lt (base := 16) (by omega) X hd
+    rw [hl] at hlt
+    have hp := parseUint_digits (base := 16) (bits := 8) (by omega) (by omega) (by omega) hd (by omega)
+    rw [hl] at hp
+    rw [parseToString_eq hex_bodySpec]
+    congr 1
+    refine embedded hex_litSpec hex_headLit (fun r => ?_) h1 h2
+    have := hex_step (r := r) hl hp
+    rw [Nat.mod_eq_of_lt (by omega)] at this
+    simpa using this
+  · intro X hl hd hv
+    have hp := parseUint_digits (base := 16) (bits := 32) (by omega) (by omega) (by omega) hd (by omega)
+    rw [hl] at hp
+    rw [parseToString_eq unicode_bodySpec]
+    congr 1
+    refine embedded unicode_litSpec unicode_headLit (fun r => ?_) h1 h2
+    simpa using unicode_step (r := r) hl hp hv
+  · intro X hl hd hv
+    have hlt := valOf_lt (base := 16) (by omega) X hd
+    rw [hl] at hlt
+    have hp := parseUint_digits (base := 16) (bits := 16) (by omega) (by omega) (by omega) hd (by omega)
+    rw [hl] at hp
+    rw [parseToString_eq utf16_bodySpec]
+    congr 1
+    refine embedded utf16_litSpec utf16_headLit (fun r => ?_) h1 h2
+    simpa using utf16_step1 (r := r) hl hp hv
+  · intro X Y hl hl2 hd hd2 hv hw
+    have hlt := valOf_lt (base := 16) (by omega) X hd
+    have hlt2 := valOf_lt (base := 16) (by omega) Y hd2
+    rw [hl] at hlt
+    rw [hl2] at hlt2
+    have hp := parseUint_digits (base := 16) (bits := 16) (by omega) (by omega) (by omega) hd (by omega)
+    have hq := parseUint_digits (base := 16) (bits := 16) (by omega) (by omega) (by omega) hd2 (by omega)
+    rw [hl] at hp
+    rw [hl2] at hq
+    constructor
+    · rw [parseToString_eq utf16_bodySpec]
+      congr 1
+      refine embedded utf16_litSpec utf16_headLit (fun r => ?_) h1 h2
+      have := utf16_step2 (r := r) hl hl2 hp hv hq hw
+      simpa using this
+    · obtain ⟨q, hq'⟩ : ∃ q, valOf 16 X = 0xd800 + q := ⟨valOf 16 X - 0xd800, by omega⟩
+      obtain ⟨t, ht'⟩ : ∃ t, valOf 16 Y = 0xdc00 + t := ⟨valOf 16 Y - 0xdc00, by omega⟩
+      rw [hq', ht', utf16Dec_pair q t (by omega) (by omega), Nat.add_sub_cancel_left,
+        Nat.add_sub_cancel_left]
+
+/-- Non-vacuity: `"ab" ++ "\\101" ++ "cd"`; the digits of a pair `\\uD83D\\uDE00`. -/
+example : (∀ c ∈ [49, 48, 49], isDigit 8 c = true) ∧ valOf 8 [49, 48, 49] = 65 ∧ 92 ∉ [97, 98] := by decide
+example : valOf 16 [68, 56, 51, 68] = 0xD83D ∧ valOf 16 [68, 69, 48, 48] = 0xDE00 ∧
+    utf16Dec 0xD83D 0xDE00 = 0x1F600 := by decide
+
+/-- `parseUint(s, base, bitSize)` as coded (uint64 accumulator, cutoff test, wrap-around
+test) for every base 2..36, every bit size ≤ 64 and every `s` (no length bound):
+success iff every character is a digit of the base and the value is ≤ 2^bitSize − 1, then
+`(value, len(s), true)`; otherwise `(0 | maxVal, j, false)` where `j` is the index of the first
+bad character — a non-digit (value 0) or the digit at which the value first exceeds `maxVal`
+(value `maxVal`) — so that scanning resumes there. -/
+theorem c07_parseUint_spec (s : Bytes) (base bits : Nat) (hb : 2 ≤ base ∧ base ≤ 36)
+    (hbits : bits ≤ 64) :
+    ((∀ c ∈ s, isDigit base c = true) → valOf base s ≤ 2 ^ bits - 1 →
+      parseUint s base bits = (valOf base s, s.length, true)) ∧
+    (∀ v j, parseUint s base bits = (v, j, true) →
+      j = s.length ∧ v = valOf base s ∧ (∀ c ∈ s, isDigit base c = true) ∧ v ≤ 2 ^ bits - 1) ∧
+    (∀ v j, parseUint s base bits = (v, j, false) →
+      ∃ c, s[j]? = some c ∧ (∀ c' ∈ s.take j, isDigit base c' = true) ∧
+        valOf base (s.take j) ≤ 2 ^ bits - 1 ∧
+        ((isDigit base c = false ∧ v = 0) ∨
+         (isDigit base c = true ∧ valOf base (s.take (j + 1)) > 2 ^ bits - 1 ∧ v = 2 ^ bits - 1))) := by
+  refine ⟨fun hd hv => parseUint_digits hb.1 hb.2 hbits hd hv, ?_, ?_⟩
+  · intro v j h
+    rw [parseUint_eq_spec hb.1 hb.2 hbits] at h
+    have := specLoop_true s 0 0 v j (Nat.zero_le _) h
+    simpa [valOf] using this
+  · intro v j h
+    rw [parseUint_eq_spec hb.1 hb.2 hbits] at h
+    obtain ⟨k, c, hj, hg, hall, hacc, hor⟩ := specLoop_false s 0 0 v j (Nat.zero_le _) h
+    have : j = k := by omega
+    subst this
+    exact ⟨c, hg, hall, hacc, hor⟩
+
+/-- Non-vacuity: `"777"` base 8, 8 bits fails at index 2 with 255; `"1g"` base 16 fails at 1. -/
+example : parseUint [55, 55, 55] 8 8 = (255, 2, false) ∧ parseUint [49, 103] 16 8 = (0, 1, false) ∧
+    parseUint [102, 70] 16 8 = (255, 2, true) := by decide
+
+/-- Format output is a sequence of fixed-width upper-case escapes.  `Shape pfx w P n out`:
+`out` consists of exactly `n` escapes, each `pfx` followed by `w` characters satisfying `P`
+(`isOct` = `0-7`, `isUHex` = `0-9A-F`).  Octal/hex: one `\\ooo` / `\\xXX` per byte;
+unicode: one `\\UXXXXXXXX` per rune of the range loop (= `utf8.RuneCountInString`, the size the
+Go code allocates); utf16: `\\uXXXX` escapes, and a rune above U+FFFF is written as a high
+surrogate escape followed by a low surrogate escape that decode back to it. -/
+theorem c07_format_shape (s out : Bytes) :
+    (octalFormat s = some out → Shape [92] 3 isOct s.length out ∧ out.length = 4 * s.length) ∧
+    (hexFormat s = some out → Shape [92, 120] 2 isUHex s.length out ∧ out.length = 4 * s.length) ∧
+    (unicodeFormat s = some out →
+      Shape [92, 85] 8 isUHex (Utf8.runeCount s) out ∧ out.length = 10 * Utf8.runeCount s) ∧
+    (utf16Format s = some out → ∃ n, Shape [92, 117] 4 isUHex n out ∧ out.length = 6 * n) ∧
+    (∀ m : Nat, 0x10000 ≤ m → m ≤ 0x10FFFF →
+      ∃ X Y hi lo, utf16FormatRune (m : Int) = some (92 :: 117 :: X ++ 92 :: 117 :: Y) ∧
+        X.length = 4 ∧ Y.length = 4 ∧
+        parseUint X 16 16 = (hi, 4, true) ∧ parseUint Y 16 16 = (lo, 4, true) ∧
+        0xd800 ≤ hi ∧ hi < 0xdc00 ∧ 0xdc00 ≤ lo ∧ lo < 0xe000 ∧ utf16Dec hi lo = (m : Int)) := by
+  refine ⟨fun h => ?_, fun h => ?_, fun h => ?_, fun h => ?_, fun m h1 h2 => utf16FormatRune_pair h1 h2⟩
+  · have := octalFormat_shape s out h
+    exact ⟨this, by rw [this.length]; simp; omega⟩
+  · have := hexFormat_shape s out h
+    exact ⟨this, by rw [this.length]; simp; omega⟩
+  · have := unicodeFormatAux_shape s.length s out 0 h
+    exact ⟨this, by rw [this.length]; simp [Utf8.runeCount, Utf8.rangeDecode]; omega⟩
+  · obtain ⟨n, hn⟩ := utf16FormatAux_shape s.length s out h
+    exact ⟨n, hn, by rw [hn.length]; simp; omega⟩
+
+/-- Non-vacuity: Format of an invalid byte, a 3-byte and a 4-byte rune. -/
+example : unicodeFormat [255, 230, 151, 165] =
+    some [92, 85, 48, 48, 48, 48, 70, 70, 70, 68, 92, 85, 48, 48, 48, 48, 54, 53, 69, 53] := by decide
 
 /-- Non-vacuity: a byte string with a backslash, a NUL and 0xFF is `IsBytes`; a concrete run. -/
 example : IsBytes [92, 0, 255, 65] := by unfold IsBytes; decide
